@@ -110,6 +110,66 @@ def run(ctx, rep):
                  nontrivial=len(set(decs)) > 1, n=len(outs),
                  sample={'rules': sc['rules'], 'default': sc['default'], 'default_opt': sc['default_opt']})
     scenario.run_all(rep, scs, 'store', check)
+    _registered_names(ctx, rep)
+
+
+def _registered_names(ctx, rep):
+    """A name defined by *registration* (plain, renamed from a deprecated name, or with a deprecated older check) is decided
+    by its own definition, never by the default rule the policy file defines (seeded change C03-A8: the old name of a renamed
+    policy looked up through the rule store, whose missing-key hook answered with the default rule)."""
+    import os
+    import shutil
+    import tempfile
+    import warnings
+    from oslo_policy import policy
+    from .. import impl
+    tmp = tempfile.mkdtemp(prefix='c03reg')
+    n = 0
+    try:
+        for dbody in ('@', '!', 'role:r0', '', 'not role:r1'):
+            for extra in ({}, {'other': 'role:r2'}, {'old_q': 'role:r0'}):
+                for enforce_new in (False, True):
+                    path = os.path.join(tmp, 'policy.yaml')
+                    file_rules = dict(extra, default=dbody)
+                    with open(path, 'w') as fh:
+                        fh.write(__import__('json').dumps(file_rules))
+                    os.utime(path, (1000 + n, 1000 + n))
+                    conf = impl.new_conf(enforce_new_defaults=enforce_new)
+                    with warnings.catch_warnings():
+                        warnings.simplefilter('ignore')
+                        e = policy.Enforcer(conf, policy_file=path)
+                        e.register_default(policy.RuleDefault('p', 'role:r1'))
+                        e.register_default(policy.RuleDefault('q', 'role:r1', deprecated_rule=policy.DeprecatedRule(
+                            'old_q', 'role:r2', deprecated_reason='renamed', deprecated_since='1')))
+                        e.register_default(policy.RuleDefault('r', 'role:r1', deprecated_rule=policy.DeprecatedRule(
+                            'r', 'role:r2', deprecated_reason='changed', deprecated_since='1')))
+                    for roles in ([], ['r0'], ['r1'], ['r2'], ['r0', 'r2']):
+                        for name in ('p', 'q', 'r', 'undefined-name'):
+                            got = impl.outcome(lambda: e.enforce(name, {}, {'roles': roles}))
+                            if name == 'undefined-name':
+                                want = {'@': True, '!': False, 'role:r0': 'r0' in roles, '': True,
+                                        'not role:r1': 'r1' not in roles}[dbody]
+                            elif name == 'p':
+                                want = 'r1' in roles
+                            elif name == 'q' and 'old_q' in extra:
+                                want = 'r0' in roles          # the operator's override of the old name governs (C11)
+                            else:
+                                want = 'r1' in roles or (not enforce_new and 'r2' in roles)
+                            if got != ('allow' if want else 'deny'):
+                                rep.fail('c03reg:%s|%s|%s|%s|%s' % (dbody, sorted(extra), enforce_new, name, roles),
+                                         'policy file %r, registered p / q (renamed from old_q) / r (older check), '
+                                         'enforce_new_defaults=%s: enforcing %r with roles %r gives %s, expected %s (a registered '
+                                         'name is decided by its own definition, an unknown one by the default rule)'
+                                         % (file_rules, enforce_new, name, roles, got, 'allow' if want else 'deny'),
+                                         {'file': file_rules, 'enforce_new_defaults': enforce_new, 'name': name, 'roles': roles})
+                            n += 1
+                    rep.case(key='reg:%s|%s|%s' % (dbody, sorted(extra), enforce_new), nontrivial=True, n=20)
+    finally:
+        shutil.rmtree(tmp, ignore_errors=True)
+    rep.rules.append('%d decisions on enforcers with REGISTERED defaults (plain, renamed from a deprecated name, deprecated older '
+                     'check) whose policy file defines the default rule (5 bodies) and optionally an unrelated rule or the old '
+                     'name, enforce_new_defaults on/off: registered names by their own definition, an unknown name by the '
+                     'default rule' % n)
 
 
 def replay(ctx, rep, data):
